@@ -2,6 +2,7 @@ package main
 
 import (
 	"fmt"
+	"runtime"
 	"strings"
 
 	"github.com/yaricom/goNEAT/v4/neat/genetics"
@@ -44,6 +45,13 @@ func runC02(c *Ctx, idx int) {
 			sc.RestoreAt = 2
 		}
 		c.Count("scenarios.large_genomes", 1)
+	}
+	if sc.Parallel {
+		// the number of processors the Go runtime may use is a process setting the parallel executor must not depend on
+		procs := pick(c.G, 1, 1, 2, 16)
+		prev := runtime.GOMAXPROCS(procs)
+		defer runtime.GOMAXPROCS(prev)
+		c.Count(fmt.Sprintf("scenarios.parallel_gomaxprocs_%d", procs), 1)
 	}
 	mon := &popMonitor{seenSpecies: map[int]*genetics.Species{}}
 	runScenario(c, sc, mon)
